@@ -14,7 +14,7 @@ pub use crate::lvalue::LValue;
 
 static UNIQUE_ID_COUNTER: AtomicUsize = AtomicUsize::new(0);
 
-#[derive(Copy, Clone, Hash, PartialEq, Eq, Debug)]
+#[derive(Copy, Clone, Hash, PartialEq, Eq, PartialOrd, Ord, Debug)]
 pub struct VarID(usize);
 
 impl VarID {
